@@ -30,7 +30,7 @@ import (
 // CloseCase: Close of one component at a drawn moment relative to its
 // in-flight work.
 type CloseCase struct {
-	Comp string `json:"comp"` // syncer | syncer-sync | rhp4 | wallet
+	Comp string `json:"comp"` // syncer | syncer-sync | syncer-dial | rhp4 | wallet
 	// Blocked: work items held inside the component (RPC handlers inside the
 	// ChainManager / Settings call, the wallet's rebroadcast inside its store
 	// call) when Close is issued.
@@ -56,6 +56,13 @@ type CloseCase struct {
 	// request) and then stays silent and OPEN: only the server's own deadline can
 	// end its handler.
 	Stall int `json:"stall,omitempty"`
+	// NoRun (syncer-dial only): Run is not active (the application only uses
+	// Connect); otherwise Run is active and Blocked is the number of unresponsive
+	// addresses in the peer store (peerLoop's own connect is pending as well).
+	// In syncer-dial, Connects (at least one) is the number of application
+	// Connect(context.Background(), addr) calls whose dial is pending at Close and
+	// Idle the number of further Connect calls started around the Close.
+	NoRun bool `json:"no_run,omitempty"`
 	// SpreadUS: the racing work (handshakes, connects, reorgs) starts at
 	// i*SpreadUS after the moment Close is issued minus SpreadUS*n/2.
 	SpreadUS int `json:"spread_us"`
@@ -63,7 +70,7 @@ type CloseCase struct {
 
 func genClose(t *rapid.T) CloseCase {
 	c := CloseCase{
-		Comp:         rapid.SampledFrom([]string{"syncer", "syncer", "syncer", "syncer", "syncer", "syncer", "rhp4", "rhp4", "rhp4", "wallet", "wallet", "wallet", "syncer-sync"}).Draw(t, "comp"),
+		Comp:         rapid.SampledFrom([]string{"syncer", "syncer", "syncer", "syncer", "syncer", "syncer", "rhp4", "rhp4", "rhp4", "wallet", "wallet", "wallet", "syncer-sync", "syncer-dial", "syncer-dial"}).Draw(t, "comp"),
 		Blocked:      rapid.IntRange(0, 4).Draw(t, "blocked"),
 		Idle:         rapid.IntRange(0, 6).Draw(t, "idle"),
 		Connects:     rapid.IntRange(0, 4).Draw(t, "connects"),
@@ -74,6 +81,9 @@ func genClose(t *rapid.T) CloseCase {
 	if c.Comp == "rhp4" && rapid.Bool().Draw(t, "stallmode") {
 		c.Stall = 1 + rapid.SampledFrom([]int{0, 1, 2, 7, 8, 15, 16, 17, 19, 40}).Draw(t, "stallbytes")
 		c.Idle = max(1, c.Idle)
+	}
+	if c.Comp == "syncer-dial" {
+		c.NoRun = rapid.IntRange(0, 2).Draw(t, "norun") == 0
 	}
 	switch rapid.IntRange(0, 3).Draw(t, "release") {
 	case 0:
@@ -172,6 +182,8 @@ func runClose(c CloseCase, cs *kit.CaseStats) error {
 		err = runCloseSyncer(c, cs)
 	case "syncer-sync":
 		err = runCloseSyncing(c, cs)
+	case "syncer-dial":
+		return runCloseDial(c, cs)
 	case "rhp4":
 		err = runCloseRHP4(c, cs)
 	case "wallet":
